@@ -79,7 +79,8 @@ VecMethodNames == {Methods[i].name : i \in {i \in DOMAIN Methods : Methods[i].re
    Selects) rather than a sequence built by Select/Where/... is not covered by the
    documentation: MAY.                                                              *)
 RECURSIVE StripId(_)
-StripId(t) == IF t.k = "Select" /\ t.ch[2].k = "Var" /\ t.ch[2].a = t.a THEN StripId(t.ch[1]) ELSE t
+StripId(t) == IF t.k = "Select" /\ t.ch[2].k = "Var" /\ t.ch[2].a = t.a THEN StripId(t.ch[1])
+              ELSE IF t.k = "Let" THEN StripId(t.ch[2]) ELSE t
 IsVecTerm(t) == LET u == StripId(t) IN \/ (u.k = "Meth" /\ u.a \in VecMethodNames)
                                         \/ (u.k = "UserFn" /\ FnMeaning(u.a) = "pair")
 Cells(b) == IF b.k \in {"Tuple", "List"} THEN {b.ch[i] : i \in DOMAIN b.ch}
